@@ -26,7 +26,7 @@ func (q *syntaxBasicCompareQuery) compute(
 	// leftFound == false && rightFound == false
 	if leftFound == rightFound {
 		if _, ok := q.comparator.(*syntaxCompareDeepEQ); ok {
-			return currentList
+			return fullList
 		}
 	}
 
